@@ -38,7 +38,7 @@ fn run(c: &S) -> S {
     // F: a fresh plain reader for every query
     let mut fresh = Vec::with_capacity(queries.len());
     for q in queries {
-        match BigWigRead::open(Cursor::new(&bytes[..])) {
+        match BigWigRead::open(bt_harness::ShortReads::<_, 61>(Cursor::new(&bytes[..]))) {
             Ok(mut r) => fresh.push(bw_answer(&mut r, q)),
             Err(e) => fresh.push(open_err(e)),
         }
